@@ -319,7 +319,9 @@ func memLen(tx int) int {
 	return 0
 }
 
-// fits: the guard of the partial theorem, for one pool and one light block
+// fits: no group the pool returns for a short hash of the light block is longer than the
+// slots that follow it (the guard of the former partial theorem; the "guarded" stream keeps
+// generating such histories: more blocks complete there)
 func fits(pool []poolEnt, lt *ltSpec) bool {
 	if lt.NilHdr {
 		return true
@@ -465,8 +467,8 @@ func liveCases(seed uint64) []caseSpec {
 	tick := evSpec{Op: "tick", T: 1}
 	p0 := []poolEnt{{Key: 2, Tx: 1}}
 	var out []caseSpec
-	// the witness of C33_no_panic_outside_recover_refuted: 3 slots, the last one is
-	// later answered with a 2-member group
+	// the history of C33_no_panic_example (it killed the pending loop before the fix): 3 slots,
+	// the last one is later answered with a 2-member group; the block must stay pending
 	out = append(out, mk("witness-group-overrun", never, p0,
 		recv(lt3(1, []int{1, 2, 3})), tick, pool(poolEnt{2, 1}, poolEnt{3, idG2}), tick))
 	// same block, the group fits (slots 1 and 2)
@@ -483,36 +485,38 @@ func liveCases(seed uint64) []caseSpec {
 	}
 	// arrives before the (never reached) timeout
 	out = append(out, mk("arrives", never, p0, recv(lt3(2, []int{1, 2, 3})), tick, pool(poolEnt{2, 1}, poolEnt{3, 2}), tick))
-	// fatal out of memory: TxCount = 2^40 (8 TiB of pointers), below the makeslice limit
+	// TxCount = 2^40 (8 TiB of pointers), below the makeslice limit: a fatal out of memory before
+	// the fix, dropped now because the count exceeds the three short hashes
 	big := lt3(3, []int{1, 2, 3})
 	big.TxCount = 1 << 40
 	out = append(out, mk("oom-2^40", never, p0, recv(lt3(1, []int{1, 2, 3})), recv(big), tick))
 	big2 := lt3(3, nil)
 	big2.TxCount = 1 << 45
 	out = append(out, mk("oom-2^45", never, p0, recv(big2), tick))
-	// above the makeslice limit / negative / zero / nil header: recovered panics
+	// above the makeslice limit / negative / zero / nil header: dropped (recovered panics before the fix)
 	for i, n := range []int64{1<<45 + 1, -1, 0, 1 << 62} {
 		l := lt3(3, []int{1, 2, 3})
 		l.TxCount = n
 		out = append(out, mk(fmt.Sprintf("recovered-%d", i), never, p0, recv(l), recv(lt3(1, []int{1, 2, 3})), tick))
 	}
 	out = append(out, mk("nil-header", never, p0, recv(&ltSpec{NilHdr: true, Miner: idMiner, Sh: []int{1}}), recv(lt3(1, []int{1, 2, 3})), tick))
-	// TxCount larger than the hash list: panics under recover at arrival, never pending
+	// TxCount larger than the hash list: dropped at arrival, never pending
 	l := lt3(4, []int{1, 2})
 	l.TxCount = 4
 	out = append(out, mk("count-exceeds-hashes", never, p0, recv(l), tick, pool(poolEnt{2, 1}), tick))
-	// overrun by the 20-member group and by the GroupCount-2 carrier with 3 members
+	// groups that do not fit (20 members; GroupCount-2 carrier with 3 members): not expanded, block stays pending
 	out = append(out, mk("overrun-20", never, p0, recv(lt3(1, []int{1, 2, 3})), pool(poolEnt{2, idW20}), tick))
 	out = append(out, mk("overrun-3of2", never, nil, recv(lt3(1, []int{1, 2, 3})), pool(poolEnt{2, idW3of2}), tick))
-	// two pending blocks, the second one overruns after the first was completed
-	// disableValidation: an honest block that is completed in the pending loop kills the node
+	// disableValidation: an honest block that is completed in the pending loop (this killed the
+	// node before the fix: nil validator)
 	nv := mk("novalidator-honest", never, nil, recv(lt3(1, []int{1, 2, 3})), tick, pool(poolEnt{2, 1}, poolEnt{3, 2}), tick)
 	nv.NoVal = true
 	out = append(out, nv)
-	// ... while a block that is complete on arrival is handed over under the recover
+	// ... and a block that is complete on arrival
 	nv2 := mk("novalidator-arrival", never, []poolEnt{{2, 1}, {3, 2}}, recv(lt3(1, []int{1, 2, 3})), tick, recv(lt3(2, []int{1, 2, 4})), tick)
 	nv2.NoVal = true
 	out = append(out, nv2)
+	// two pending blocks, the second one's group does not fit after the first was completed
 	out = append(out, mk("two-pending", never, nil, recv(lt3(1, []int{1, 2, 3})), recv(lt3(2, []int{1, 4, 5})),
 		pool(poolEnt{2, 1}, poolEnt{3, 2}, poolEnt{4, 3}, poolEnt{5, idG1}), tick))
 	return out
